@@ -66,6 +66,8 @@ type edgeFilterFn func(pred, succ *ssa.BasicBlock, ev uint64) bool
 // true edge of a guard it recognises). succIdx is the index in pred.Succs.
 type edgeTransferFn func(pred *ssa.BasicBlock, succIdx int, ev uint64) uint64
 
+type condTrFn func(cond ssa.Value, outcome bool, ev uint64, actual func(ssa.Value) ssa.Value) uint64
+
 type pathAnalysis struct {
 	fn       *ssa.Function
 	transfer transferFn
@@ -74,7 +76,14 @@ type pathAnalysis struct {
 	// condTr (optional) is told that a non-constant condition `cond` is known
 	// to have had the value `outcome` when a branch on a boolean variable that
 	// merely holds cond's value (x := a && (b || cond); if x {...}) is taken.
-	condTr    func(cond ssa.Value, outcome bool, ev uint64) uint64
+	//
+	// It is also applied inside a predicate function: `if ok(x) {...}` where ok
+	// is a function or closure returning bool is read as the conditions that
+	// ok's body establishes whenever it returns that outcome; `actual` maps a
+	// value of the predicate's body (a parameter) to the caller's argument.
+	condTr    condTrFn
+	bind      map[ssa.Value]ssa.Value
+	depth     int
 	leafOf    map[*ssa.Phi]ssa.Value // tracked phi -> its single non-constant source, if any
 	tracked   []*ssa.Phi
 	trackIdx  map[ssa.Value]int
@@ -315,7 +324,7 @@ func (pa *pathAnalysis) flow(pred, succ *ssa.BasicBlock, succIdx int, t tuple) (
 					// the variable holds its leaf condition's value: that
 					// condition had this outcome
 					if ph, ok := cond.(*ssa.Phi); ok {
-						t.ev = pa.condTr(pa.leafOf[ph], val, t.ev)
+						t.ev = pa.learn(pa.leafOf[ph], val, t.ev)
 					}
 				}
 				if val {
@@ -323,6 +332,21 @@ func (pa *pathAnalysis) flow(pred, succ *ssa.BasicBlock, succIdx int, t tuple) (
 				} else {
 					t = pa.setBool(t, i, 1)
 				}
+			}
+		}
+	}
+	if pa.condTr != nil && len(pred.Succs) == 2 && pred.Succs[0] != pred.Succs[1] {
+		if iff, ok := pred.Instrs[len(pred.Instrs)-1].(*ssa.If); ok {
+			cond, outcome := iff.Cond, succIdx == 0
+			for {
+				if u, ok := cond.(*ssa.UnOp); ok && u.Op == token.NOT {
+					cond, outcome = u.X, !outcome
+					continue
+				}
+				break
+			}
+			if call, ok := cond.(*ssa.Call); ok {
+				t.ev = pa.predicateEffect(call, outcome, t.ev)
 			}
 		}
 	}
@@ -440,3 +464,106 @@ func (pa *pathAnalysis) statesBefore(at ssa.Instruction) []uint64 {
 }
 
 func (pa *pathAnalysis) reachable(b *ssa.BasicBlock) bool { return len(pa.in[b]) > 0 }
+
+// actual maps a value of a predicate's body to what the caller passed for it.
+func (pa *pathAnalysis) actual(v ssa.Value) ssa.Value {
+	for i := 0; i < 4; i++ {
+		w, ok := pa.bind[v]
+		if !ok {
+			return v
+		}
+		v = w
+	}
+	return v
+}
+
+// learn tells the rule that cond had the given outcome; a cond that is itself a
+// call of a predicate function is resolved through its body.
+func (pa *pathAnalysis) learn(cond ssa.Value, outcome bool, ev uint64) uint64 {
+	if call, ok := cond.(*ssa.Call); ok {
+		if e := pa.predicateEffect(call, outcome, ev); e != ev {
+			return e
+		}
+	}
+	return pa.condTr(cond, outcome, ev, pa.actual)
+}
+
+// predicateCallee: the function or closure a boolean call resolves to.
+func predicateCallee(call *ssa.Call) *ssa.Function {
+	if call.Call.IsInvoke() {
+		return nil
+	}
+	res := call.Call.Signature().Results()
+	if res.Len() != 1 || res.At(0).Type().Underlying().String() != "bool" {
+		return nil
+	}
+	if f := call.Call.StaticCallee(); f != nil {
+		return f
+	}
+	// a closure held in a local variable (possibly captured)
+	if mc, ok := root(call.Call.Value).(*ssa.MakeClosure); ok {
+		if f, ok := mc.Fn.(*ssa.Function); ok {
+			return f
+		}
+	}
+	return nil
+}
+
+// predicateEffect: the event bits that hold whenever the predicate called by
+// `call` returns `outcome`, starting from ev.
+func (pa *pathAnalysis) predicateEffect(call *ssa.Call, outcome bool, ev uint64) uint64 {
+	f := predicateCallee(call)
+	if f == nil || len(f.Blocks) == 0 || pa.depth >= 2 || pa.condTr == nil {
+		return ev
+	}
+	sub := newPathAnalysis(f, func(ssa.Instruction, uint64, bool) []uint64 { return nil })
+	sub.condTr = pa.condTr
+	sub.depth = pa.depth + 1
+	sub.bind = map[ssa.Value]ssa.Value{}
+	for i, a := range call.Call.Args {
+		if i < len(f.Params) {
+			sub.bind[f.Params[i]] = pa.actual(a)
+		}
+	}
+	sub.edgeTr = func(pred *ssa.BasicBlock, succIdx int, e uint64) uint64 {
+		if iff, ok := pred.Instrs[len(pred.Instrs)-1].(*ssa.If); ok && pred.Succs[0] != pred.Succs[1] {
+			return sub.condTr(iff.Cond, succIdx == 0, e, sub.actual)
+		}
+		return e
+	}
+	sub.run(ev)
+	must := ^uint64(0)
+	any := false
+	sub.visit(func(in ssa.Instruction, t tuple) {
+		ret, ok := in.(*ssa.Return)
+		if !ok || len(ret.Results) != 1 {
+			return
+		}
+		r := ret.Results[0]
+		e := t.ev
+		switch sub.evalBool(r, t) {
+		case 1:
+			if outcome {
+				return
+			}
+		case 2:
+			if !outcome {
+				return
+			}
+		case 3:
+			if ph, ok := r.(*ssa.Phi); ok {
+				e = sub.learn(sub.leafOf[ph], outcome, e)
+			}
+		default:
+			if _, isPhi := r.(*ssa.Phi); !isPhi {
+				e = sub.learn(r, outcome, e)
+			}
+		}
+		must &= e
+		any = true
+	})
+	if !any {
+		return ev
+	}
+	return must
+}
